@@ -188,6 +188,73 @@ RANGE_OPTS = [
 ]
 
 
+WIDE14 = ['**kern', '**text', '**kern', '**dynam', '**kern', '**harm', '**kern', '**fing', '**root', '**kern', '**mxhm', '**kern', '**kern', '**text']
+BIG_SELECTIONS = [('none', None, None), ('exclude-DECORATION', None, ('DECORATION',)), ('include-SIGNATURES', ('SIGNATURES',), None), ('exclude-CORE', None, ('CORE',)),
+                  ('include-core-structural-barlines', ('CORE', 'STRUCTURAL', 'BARLINES'), None), ('include-DECORATION-BARLINES', ('DECORATION', 'BARLINES'), None),
+                  ('exclude-BARLINES-COMMENTS', None, ('BARLINES', 'COMMENTS'))]
+
+
+def big_model(which, seed):
+    from .. import docspace as D
+    if which == 'giant':
+        return D.giant_model(seed)
+    if which.startswith('aligned'):
+        return D.aligned_model(seed, int(which[7:]))
+    # fourteen spines (two-digit ids: [1, 2] / [12], [1, 3] / [13] written without a separator coincide), ~90 rows
+    return X.seq_model(WIDE14, ['k', 'i', 'b'] + ['d', 'd', 'S0', 'd', 'J0', 'b', 'c', 'd', 'z', 'b'] * 8, seed, cap=20, with_key=False)
+
+
+def _big_job(job):
+    """documents far beyond the bounds of the exhaustive family (1 900 lines / 14 spines) x a hand-picked option product, all on ONE Document object"""
+    which, seed, part = job
+    acc = Acc()
+    m = big_model(which, seed)
+    text = m.text()
+    doc, errs = kp.loads(text)
+    ctxm = m.context()
+    ns = len(m.headers)
+    idsets = [None, [0], [ns - 1], [1, 2], [0, ns - 1], list(range(1, ns)), [1, 3]] + ([[12], [13], [1], [11], [1, 1, 2], [2, 1]] if ns > 13 else [[2, 1], [3]])
+    idsets = [ids for ids in idsets if ids is None or all(i < ns for i in ids)]
+    tsets = [None, ['**kern'], ['**text', '**kern']]
+    k = 0
+    for ids in idsets:
+        for ts in tsets:
+            if ids is not None and ts is not None and ts != ['**kern']:
+                continue
+            keep = {i for i in (range(ns) if ids is None else ids) if ts is None or m.headers[i] in ts}
+            for sel in BIG_SELECTIONS:
+                for enc in ('kern', 'ekern', 'aekern', 'bkern'):
+                    k += 1
+                    if k % 4 != part:
+                        continue
+                    _, inc, exc = sel
+                    S = catref.selected(inc, exc)
+                    kw = {}
+                    if ids is not None:
+                        kw['spine_ids'] = list(ids)
+                    if ts is not None:
+                        kw['spine_types'] = list(ts)
+                    if inc is not None:
+                        kw['include'] = {TC[x] for x in inc}
+                    if exc is not None:
+                        kw['exclude'] = {TC[x] for x in exc}
+                    if enc != 'kern':
+                        kw['encoding'] = ENC[enc]
+                    case = {'big': [which, seed, part], 'doc': which, 'spine_ids': ids, 'spine_types': ts, 'selection': sel[0], 'encoding': enc, 'text': f'({which} document, seed {seed})'}
+                    acc.count('evaluations')
+                    acc.count('transitions')
+                    try:
+                        out = kp.dumps(doc, **kw)
+                    except Exception as e:  # noqa
+                        acc.violation(Viol('option-product-big-document', 'raises', case, 'text', f'{type(e).__name__}: {str(e)[:100]}'))
+                        continue
+                    acc.count('traces')
+                    acc.nontriv((which, k))
+                    for sym, detail in compare_export(m, out, enc, keep, S, ctxm, bottom_of)[:1]:
+                        acc.violation(Viol('option-product-big-document', sym, case, 'composition of the three single-option transformations', detail))
+    return acc
+
+
 def _range_job(job):
     """measure ranges together with the other options: the excerpt must be well formed (SpineModel acceptor of C08) and, where barlines are kept,
     its data lines must be those of the same measures in the whole export under the same options (tiling oracle of C07)"""
@@ -274,6 +341,7 @@ def run(ctx):
     ctx.assumptions = ['reference exporter kv/model.py; agnostic pitch from kv/pitchref.py anchored at the clef object\'s own bottom line (C10 decides the anchor)',
                        'comparison leniencies of DESIGN §2.1']
     nparts = 8
+    ctx.pmap(_big_job, [(w, ctx.seed, p) for w in ('giant', 'wide14', 'aligned128', 'aligned256', 'aligned1100') for p in range(4)], chunksize=1)
     ctx.pmap(_job, [(di, ctx.tier, ctx.seed, p, nparts) for di in range(len(fam)) for p in range(nparts)], chunksize=1)
     # (measure ranges are not driven on the documents with invisible barlines: what a measure is when a barline is hidden in one column only is not settled by any property)
     ctx.pmap(_range_job, [(di, ctx.tier, ctx.seed) for di in range(len(fam)) if 'hidden-barlines' not in fam[di][0]], chunksize=1)
@@ -281,6 +349,8 @@ def run(ctx):
 
 def replay(case):
     acc = Acc()
+    if 'big' in case:
+        return _big_job(tuple(case['big'])).viol
     if 'range_options' in case:
         fam = family(case.get('tier', 'quick'), case.get('seed', 0))
         di = [n for n, _ in fam].index(case['doc'])
